@@ -19,6 +19,9 @@ FILES = {
     "strg2.py": triggers.STRINGLY_FILES["strg2.py"],
     "magic.py": triggers.T["magic.py"][3],
     "textutil.py": "import re as rx\n\n\nWORD = rx.compile('a+')\n\n\ndef words(text):\n    return WORD.findall(text)\n",
+    # extension-less scripts: their language is decided by content (shebang), not by the path
+    "deploy": "#!/bin/sh\n# wrapper around the python tooling\necho deploying\n",
+    "runner": "#!/usr/bin/env python3\ndef price(q):\n    print(q)\n    return q * 4801\n",
     "scanner.py": "import regex as rx\n\n\ndef scan(items):\n    out = []\n    for it in items:\n        if rx.search('a+', it):\n            out.append(it)\n    return out\n",
 }
 VARIANTS = {
@@ -26,6 +29,8 @@ VARIANTS = {
     "strg2.py": "def check_mode(mode):\n    return mode is not None\n",
     "magic.py": "def price(q):\n    return q\n",
     "scanner.py": "def scan(items):\n    return list(items)\n",
+    "deploy": "#!/usr/bin/env python3\ndef cost(q):\n    print(q)\n    return q * 5903\n",
+    "runner": "#!/bin/sh\necho running\n",
 }
 ADDED = {"dup3.py": triggers.DUP_FILES["dup1.py"].replace("alpha", "gamma")}
 ORDER = list(FILES)
@@ -115,12 +120,12 @@ def make_h_history(nsteps, quick=False):
                 if op == "lint-dir":
                     linter.lint(d)
                 elif op == "lint-file":
-                    f = ctx.pick(f"file{step}", ("dup2.py", "strg1.py", "textutil.py", "magic.py") if not quick else ("dup2.py", "textutil.py"))
+                    f = ctx.pick(f"file{step}", ("dup2.py", "strg1.py", "textutil.py", "magic.py", "deploy") if not quick else ("dup2.py", "textutil.py", "deploy"))
                     if (d / "src" / f).exists():
                         linter.lint(d / "src" / f)
                     op += ":" + f
                 elif op == "edit":
-                    f = ctx.pick(f"file{step}", tuple(VARIANTS) if not quick else ("dup2.py", "strg2.py", "scanner.py"))
+                    f = ctx.pick(f"file{step}", tuple(VARIANTS) if not quick else ("dup2.py", "scanner.py", "deploy", "runner"))
                     if (d / "src" / f).exists():
                         (d / "src" / f).write_text(VARIANTS[f])
                     op += ":" + f
